@@ -142,10 +142,17 @@ func c01R2(p *core.Prog, r *core.Report) {
 	reqCount := "uint32(" + lk + ".command.Count)"
 	oldCount := "uint32(" + mgr + ".currentLock.command.Count)"
 	ex := core.NewExplorer(p, core.Hooks{
-		Track: func(x *core.X, a core.Atom) bool { return true },
+		Inline: func(x *core.X, callee *ssa.Function) bool { return pureBoolHelper(p, callee) },
+		Track:  func(x *core.X, a core.Atom) bool { return true },
 		Exit: func(x *core.X, rets []core.Expr) {
 			if len(rets) != 1 || rets[0].S == "false" {
 				return
+			}
+			if rets[0].S != "true" {
+				// a result that is not a constant on this path (comparison or
+				// call of a helper that was not inlined) may be true: the path
+				// must satisfy the bound like a true-returning path
+				rets = []core.Expr{{S: "true"}}
 			}
 			// path class: atoms over the depth and the two Counts
 			var cls []string
@@ -218,7 +225,7 @@ func c01R1(p *core.Prog, r *core.Report) {
 		}
 		ex := core.NewExplorer(p, core.Hooks{
 			Inline: func(x *core.X, callee *ssa.Function) bool {
-				return callee == doLock || inl[callee] || callee.Name() == "doCheckLockWaitPriority"
+				return callee == doLock || inl[callee] || callee.Name() == "doCheckLockWaitPriority" || (underFrame(x, doLock) && pureBoolHelper(p, callee))
 			},
 			InlineReturn: func(x *core.X, callee *ssa.Function, rets []core.Expr) {
 				if callee != doLock {
